@@ -5,6 +5,58 @@ use crate::rng::{hash64, Rng};
 use std::cell::RefCell;
 use std::collections::{BTreeMap, HashSet};
 use std::panic::{self, AssertUnwindSafe};
+use std::sync::atomic::{AtomicBool, AtomicU64, Ordering};
+use std::sync::Mutex;
+
+// ---------------------------------------------------------------------------------------------
+// hang monitor: a watchdog thread notices when no evaluation has started for `secs` seconds, writes
+// the case that was in flight (for monitors that trace their cases) and ends the process with
+// exit code 3. The driver then confirms the hang by replaying that case alone.
+
+static PROGRESS: AtomicU64 = AtomicU64::new(0);
+static WATCHDOG_OFF: AtomicBool = AtomicBool::new(false);
+static CURRENT: Mutex<String> = Mutex::new(String::new());
+
+/// record the case about to be executed (cheap: one uncontended lock and a string)
+pub fn trace_case(f: impl FnOnce() -> String) {
+    if let Ok(mut g) = CURRENT.lock() {
+        *g = f();
+    }
+    PROGRESS.fetch_add(1, Ordering::Relaxed);
+}
+
+pub fn watchdog_off() {
+    WATCHDOG_OFF.store(true, Ordering::Relaxed);
+}
+
+pub fn start_watchdog(out: Option<String>, prop: String, secs: u64) {
+    std::thread::spawn(move || {
+        let mut last = PROGRESS.load(Ordering::Relaxed);
+        let mut since = std::time::Instant::now();
+        loop {
+            std::thread::sleep(std::time::Duration::from_millis(500));
+            if WATCHDOG_OFF.load(Ordering::Relaxed) {
+                return;
+            }
+            let now = PROGRESS.load(Ordering::Relaxed);
+            if now != last {
+                last = now;
+                since = std::time::Instant::now();
+            } else if since.elapsed().as_secs() >= secs {
+                let case = CURRENT.lock().map(|g| g.clone()).unwrap_or_default();
+                let j = J::obj().set("hang", J::obj().set("property", J::s(&prop)).set("case", J::s(case)).set("seconds_without_progress", J::i(secs)).set("evaluation", J::i(now)));
+                match &out {
+                    Some(f) => {
+                        let _ = std::fs::write(f, j.render());
+                    }
+                    None => println!("{}", j.render()),
+                }
+                std::process::exit(3);
+            }
+        }
+    });
+}
+
 
 #[derive(Clone, Debug, PartialEq)]
 pub struct Case {
@@ -150,6 +202,7 @@ impl Ctx {
     }
     pub fn eval(&mut self) {
         self.evaluations += 1;
+        PROGRESS.fetch_add(1, Ordering::Relaxed);
     }
     pub fn count(&mut self, name: &str) {
         *self.counters.entry(name.to_string()).or_insert(0) += 1;
